@@ -713,12 +713,11 @@ func voxelRange(blockSize, begBlock, endBlock, begVoxel, endVoxel int32) (int32,
 func (d *Data) GetMask(ctx *datastore.VersionedCtx, subvol *dvid.Subvolume) ([]byte, error) {
 	pt0 := subvol.StartPoint()
 	pt1 := subvol.EndPoint()
-	minBlockZ := pt0.Value(2) / d.BlockSize[2]
-	maxBlockZ := pt1.Value(2) / d.BlockSize[2]
-	minBlockY := pt0.Value(1) / d.BlockSize[1]
-	maxBlockY := pt1.Value(1) / d.BlockSize[1]
-	minBlockX := pt0.Value(0) / d.BlockSize[0]
-	maxBlockX := pt1.Value(0) / d.BlockSize[0]
+	minBlock := pt0.(dvid.Chunkable).Chunk(d.BlockSize)
+	maxBlock := pt1.(dvid.Chunkable).Chunk(d.BlockSize)
+	minBlockZ, maxBlockZ := minBlock.Value(2), maxBlock.Value(2)
+	minBlockY, maxBlockY := minBlock.Value(1), maxBlock.Value(1)
+	minBlockX, maxBlockX := minBlock.Value(0), maxBlock.Value(0)
 
 	minIndex := minIndexByBlockZ(minBlockZ)
 	maxIndex := maxIndexByBlockZ(maxBlockZ)
